@@ -35,13 +35,14 @@ func addrPair(a net.Addr) [2]int {
 }
 
 type natRun struct {
-	tr   *vrt.Tracer
-	nat  *networkAddressTranslator
-	base time.Time
-	last int
-	seen [][2]int // external addresses in order of first allocation
-	cur  [2]int   // external address of the latest translated outbound datagram
-	rng  *rand.Rand
+	tr    *vrt.Tracer
+	nat   *networkAddressTranslator
+	base  time.Time
+	last  int
+	seen  [][2]int // external addresses in order of first allocation
+	cur   [2]int   // external address of the latest translated outbound datagram
+	pairs [][2]int // 1:1 mode: local ip, external ip
+	rng   *rand.Rand
 }
 
 func behav(s string) EndpointDependencyType {
@@ -61,10 +62,16 @@ func newNatRun(tr *vrt.Tracer, rng *rand.Rand, mode, mb, fb string, life time.Du
 	pairs := [][2]int{}
 	if mode == "1to1" {
 		cfg.natType = NATType{Mode: NATModeNAT1To1}
-		cfg.mappedIPs = []net.IP{natIP(1), natIP(2)}
-		cfg.localIPs = []net.IP{natIP(10), natIP(11)}
-		ext = []int{1, 2}
 		pairs = [][2]int{{10, 1}, {11, 2}}
+		if rng.Intn(2) == 0 { // an address may be the local side of one pair and the external side of another
+			pairs = [][2]int{{1, 2}, {2, 3}, {3, 4}, {11, 12}}
+		}
+		ext = []int{}
+		for _, p := range pairs {
+			cfg.localIPs = append(cfg.localIPs, natIP(p[0]))
+			cfg.mappedIPs = append(cfg.mappedIPs, natIP(p[1]))
+			ext = append(ext, p[1])
+		}
 	} else {
 		cfg.natType = NATType{MappingBehavior: behav(mb), FilteringBehavior: behav(fb), MappingLifeTime: life}
 		cfg.mappedIPs = []net.IP{natIP(1)}
@@ -82,7 +89,7 @@ func newNatRun(tr *vrt.Tracer, rng *rand.Rand, mode, mb, fb string, life time.Du
 		"ext": ext, "pairs": pairs, "dyn": 16384,
 	})
 
-	return &natRun{tr: tr, nat: n, base: time.Now(), rng: rng}
+	return &natRun{tr: tr, nat: n, base: time.Now(), rng: rng, pairs: pairs}
 }
 
 func (r *natRun) tick() {
@@ -213,7 +220,13 @@ func TestVerifNATRandom(t *testing.T) { //nolint:cyclop,gocognit
 				} else {
 					r = newNatRun(tr, rng, "napt", behs[ti/3], behs[ti%3], life)
 				}
-				internal := func() [2]int { return [2]int{10 + rng.Intn(3), 1 + rng.Intn(4)} }
+				internal := func() [2]int {
+					if len(r.pairs) > 0 && rng.Intn(4) > 0 { // 1:1 mode: mostly paired addresses (local or external side)
+						return [2]int{r.pairs[rng.Intn(len(r.pairs))][rng.Intn(2)], 1 + rng.Intn(4)}
+					}
+
+					return [2]int{10 + rng.Intn(3), 1 + rng.Intn(4)}
+				}
 				// remote addresses whose textual forms are prefixes of each other (10.0.0.3 / .30 / .31 / .250 / .25,
 				// ports 8 / 80 / 800)
 				rips := []int{3, 30, 31, 250, 25}
@@ -240,7 +253,10 @@ func TestVerifNATRandom(t *testing.T) { //nolint:cyclop,gocognit
 						var dst [2]int
 						switch {
 						case ti == 9:
-							dst = [2]int{1 + rng.Intn(3), 1 + rng.Intn(4)}
+							dst = [2]int{r.pairs[rng.Intn(len(r.pairs))][rng.Intn(2)], 1 + rng.Intn(4)}
+							if rng.Intn(5) == 0 {
+								dst[0] = 1 + rng.Intn(13)
+							}
 						case len(r.seen) > 0 && rng.Intn(4) > 0:
 							dst = r.seen[rng.Intn(len(r.seen))]
 							if rng.Intn(5) == 0 {
